@@ -3,6 +3,8 @@ NEXT Next
 CONSTANTS
   MaxP = 4
   Deviations = {}
+  KindSet <- AllKinds
+  InputKinds <- BothInputs
   MaxPos = 5
 INVARIANT NoBindNoRun
 INVARIANT ArgsExact
